@@ -57,6 +57,57 @@ def default_harnesses(d, base):
     return "".join(out), hs
 
 
+OTHER = r"""
+pub mod other_types {
+    use super::*;
+    use nutype::nutype;
+    static mut MASK: i32 = 0; static mut K: i32 = 0; static mut DX: i32 = 0;
+    #[derive(Debug, Clone, Copy, PartialEq, Default)]
+    pub struct P { pub x: i32, pub y: i32 }
+    fn okp(p: &P) -> bool { (p.x & unsafe { MASK }) != 0 }
+    fn sanp(p: P) -> P { P { x: p.x ^ unsafe { K }, y: p.y } }
+    fn dflt() -> P { P { x: unsafe { DX }, y: 7 } }
+    #[nutype(sanitize(with = sanp), validate(predicate = okp), derive(Debug, TryFrom, Default), default = dflt())] pub struct NV(P);
+    #[nutype(sanitize(with = sanp), derive(Debug, From, Default), default = dflt())] pub struct NF(P);
+    #[nutype(sanitize(with = sanp), derive(Debug, TryFrom))] pub struct NT(P);
+    #[nutype(sanitize(with = |t: [T; 2]| t), validate(predicate = |t: &[T; 2]| t[0] != t[1]), derive(Debug, TryFrom))] pub struct GV<T: PartialEq>([T; 2]);
+    #[nutype(derive(Debug, From))] pub struct GF<T>(T);
+    fn anyp() -> P { P { x: kani::any(), y: kani::any() } }
+
+    #[kani::proof]
+    #[kani::unwind(10)]
+    pub fn c03_other_conversions() {
+        unsafe { MASK = kani::any(); K = kani::any(); }
+        let raw = anyp(); let s = sanp(raw); let valid = okp(&s);
+        kani::cover!(valid); kani::cover!(!valid);
+        match <NV as TryFrom<P>>::try_from(raw) { Ok(v) => { assert!(valid, "TryFrom accepted a value the constructor rejects"); assert!(v.into_inner() == s, "TryFrom stored something other than the sanitized value"); } Err(e) => { assert!(!valid); assert!(e == NVError::PredicateViolated); } }
+        assert!(<NF as From<P>>::from(raw).into_inner() == s, "From did not wrap the sanitized value");
+        match <NT as TryFrom<P>>::try_from(raw) { Ok(v) => assert!(v.into_inner() == s, "infallible TryFrom did not wrap the sanitized value"), Err(e) => match e {} }
+        let g: [i16; 2] = kani::any();
+        match <GV<i16> as TryFrom<[i16; 2]>>::try_from(g) { Ok(v) => { assert!(g[0] != g[1]); assert!(v.into_inner() == g); } Err(_) => assert!(g[0] == g[1]) }
+        assert!(<GF<(u8, u8)> as From<(u8, u8)>>::from((1, 2)).into_inner() == (1, 2));
+    }
+    #[kani::proof]
+    pub fn c03_other_default_ok() {
+        unsafe { MASK = kani::any(); K = kani::any(); DX = kani::any(); }
+        let s = sanp(dflt());
+        assert!(<NF as Default>::default().into_inner() == s, "Default differs from new(default expr)");
+        kani::assume(okp(&s));
+        kani::cover!(true);
+        assert!(<NV as Default>::default().into_inner() == s, "Default differs from try_new(default expr)");
+    }
+    #[kani::proof]
+    #[kani::should_panic]
+    pub fn c03_other_default_invalid() {
+        unsafe { MASK = kani::any(); K = kani::any(); DX = kani::any(); }
+        kani::assume(!okp(&sanp(dflt())));
+        let v = <NV as Default>::default();
+        kani::cover!(true, "MARKER default() returned although the default is invalid");
+    }
+}
+"""
+
+
 def generate(tier, seed):
     rng = random.Random(seed)
     plan = Plan("C03")
@@ -116,6 +167,10 @@ def generate(tier, seed):
             hsrc = "    #[kani::proof]\n    #[kani::should_panic]\n    pub fn %s() { %s }\n" % (hn, body)
             plan.add(H(hn, "main", dict(d.describe(), default=dv), expect_panic=True, unreachable=["MARKER default() returned"]))
         src.append("pub mod %s {\n    use super::*;\n    use nutype::nutype;\n    %s\n%s\n%s}\n" % (d.modname(), d.prelude(), indent(d.attr()), hsrc))
+    src.append(OTHER)
+    plan.add(H("c03_other_conversions", "main", {"case": "struct and generic inner types: TryFrom (validated / infallible), From"}))
+    plan.add(H("c03_other_default_ok", "main", {"case": "struct inner type: Default with symbolic default expression (valid)"}))
+    plan.add(H("c03_other_default_invalid", "main", {"case": "struct inner type: invalid default never returns"}, expect_panic=True, unreachable=["MARKER default() returned"]))
     src.append(strprops.gen_c03(plan, tier, rng))
     plan.source = "\n".join(src)
     plan.bounds = {"numeric": "loop-free: every input, bound, default value of the inner type"}
